@@ -4,6 +4,7 @@ package interp
 
 import (
 	"fmt"
+	"os"
 	"go/types"
 	"strings"
 )
@@ -146,6 +147,9 @@ func init() {
 	zzAPI["Observe"] = func(fr *frame, a []value) value {
 		m := fr.i.m
 		it := a[1].(iface)
+		if m.ex.cfg.Trace {
+			fmt.Fprintf(os.Stderr, "OBS %s = %s\n", cstr(a[0], "label"), toString(it.v))
+		}
 		m.obs = append(m.obs, Observation{Label: cstr(a[0], "label"), Val: it.v})
 		return nil
 	}
